@@ -1,6 +1,7 @@
 package component
 
 import (
+	"errors"
 	"io"
 
 	pk "github.com/Tnze/go-mc/net/packet"
@@ -24,14 +25,17 @@ func (Food) ID() string {
 
 // ReadFrom implements DataComponent.
 func (f *Food) ReadFrom(r io.Reader) (n int64, err error) {
-	pk.Tuple{
+	n, err = pk.Tuple{
 		&f.Nutrition,
 		&f.Saturation,
 		&f.CanAlwaysEat,
 		&f.EatSeconds,
 		// TODO
 	}.ReadFrom(r)
-	panic("unimplemented")
+	if err != nil {
+		return n, err
+	}
+	return n, errors.New("component: the effects of minecraft:food are not implemented")
 }
 
 // WriteTo implements DataComponent.
